@@ -29,6 +29,7 @@ func VerifRun_C15() {
 	form := verifConcretize(verifRange("form", 0, 5+verifParam("ALIASCYCLE")))
 	src := ""
 	line := 0
+	oneBlock := verifBool("oneBlock")
 	fieldLine := make([]int, nc)
 	for i := 0; i < nc; i++ {
 		src += "---@class " + c15names[i]
@@ -45,8 +46,10 @@ func VerifRun_C15() {
 		src += "---@field f" + c15names[i] + " number\n"
 		fieldLine[i] = line
 		line++
-		src += "\n"
-		line++
+		if i == nc-1 || !oneBlock {
+			src += "\n" // (all classes in one comment block when oneBlock: no blank line between them)
+			line++
+		}
 	}
 	x := c15names[target]
 	typ, use := "", "v"
